@@ -71,6 +71,43 @@ func cnfCases(env *core.Env, count int, cert func(i int) bool) []core.Case {
 	return res
 }
 
+// plantedCases: the local tier of C01. Planted 3-SAT (with a few binary clauses) around the threshold,
+// 14..44 variables: many conflicts, learned clauses reused as reasons, forced restarts and reductions.
+// The witness makes the verdict decidable without model sets (CertTrace evaluates it); a formula with
+// few models is the most sensitive input there is to an unsound learned clause, which almost surely
+// excludes the planted model. The recorded searches also go through the mechanism pass.
+func plantedCases(env *core.Env, count int) []core.Case {
+	r := env.Rand
+	var res []core.Case
+	for i := 0; i < count; i++ {
+		nv := 14 + r.Intn(env.Pick(22, 31))
+		ratio := 3.9 + r.Float64()*1.6
+		clauses, w := gen.PlantedKSAT(r, nv, int(ratio*float64(nv)), 3)
+		if r.Intn(2) == 0 {
+			for k := 0; k < 1+r.Intn(nv/3); k++ { // binary clauses consistent with the witness
+				a, b := 1+r.Intn(nv), 1+r.Intn(nv)
+				if a == b {
+					continue
+				}
+				la, lb := a, b
+				if !w[a-1] {
+					la = -a
+				}
+				if r.Intn(2) == 0 {
+					lb = -lb
+				}
+				clauses = append(clauses, []int{la, lb})
+			}
+			clauses = gen.Shuffle(r, clauses)
+		}
+		cfg := gen.Cfg(i%3 == 0, []int{0, 3, 6}[r.Intn(3)], []int{0, 4}[r.Intn(2)], false, false, true)
+		c := gen.APICase([]string{"slicenb", "dimacs"}[r.Intn(2)], nv, true, gen.ClauseCtors(clauses), false, nil, cfg, []gen.M{gen.Op("solve")})
+		c["tm"], c["witness"] = "CertTrace", w
+		res = append(res, c)
+	}
+	return res
+}
+
 // cdclDesigns: the design-level runs shared by C01 and C06. Every initial state (formula) of the
 // exhaustive CDCL model is turned into cases for the real solver.
 func cdclDesigns(allCert bool) []core.Design {
@@ -143,8 +180,11 @@ func init() {
 		Amplify:     amplifyAPI,
 		Designs:     cdclDesigns(false),
 		TraceModule: "APITrace",
+		Mech:        &core.Mech{Module: "SearchTrace", Project: mechAPI, Quick: 600, Thorough: 8000},
 		Cases: func(env *core.Env) []core.Case {
-			return cnfCases(env, env.Pick(2000, 25000), func(i int) bool { return i%2 == 0 })
+			res := cnfCases(env, env.Pick(2000, 25000), func(i int) bool { return i%2 == 0 })
+			res = append(res, plantedCases(env, env.Pick(400, 6000))...)
+			return append(res, scanCandidates(env, "cnf", env.Pick(12000, 200000), false, scanCNF(false))...)
 		},
 		Cover: func(t core.Case, cov map[string]int) bool {
 			dec, prop, _ := coverAPI(t, cov)
